@@ -49,6 +49,16 @@ CLAIMED = {
     level="History independence is a typestate property: every path to the in-place Schmidt scaling must be dominated by a reload, and every reload path must refresh date, epoch and coefficients together. Entry-point agreement, element consistency and the treatment of latitude/longitude 0 are effect/dataflow facts.",
     note="Pole finiteness beyond the guard, +/-180 degree equality and calendar rounding are not decided.",
     ref="DESIGN.md §2 C15"),
+ "C17": dict(
+    technique="AVN identities on the extracted frame formulas (transpose/orthogonality, composition of inverse pairs, linear isometry), exact forward-model check of the post-iteration height formula on every inequality arm, reaching-definitions analysis of frames.py, no memoised array results",
+    level="Every inverse pair that is a closed form (ECEF<->ENU, ENU<->AER, ENU<->DCA, NED<->ENU, LLF rotations) is decided exactly as a composition identity; the ECEF->ENU map is proved a linear isometry sending the origin to 0. For the iterative geodetic inverse only the converged-latitude height formula and definedness of locals are decided; convergence and accuracy are not.",
+    note="Real arithmetic; range validation branches assumed not taken; cos(lat) > 0 and N+h > 0 declared for the height obligation.",
+    ref="DESIGN.md §2 C17"),
+ "C20": dict(
+    technique="exact AVN interpretation of Sensors.generate with symbolic rotations, references, noise levels, random draws and bias (both in_degrees arms, both outcomes of every data-dependent branch), CONFIG-FROZEN effect rule, value-numbered ground-truth identities at the end of __init__, zero-option lint",
+    level="Row i of each synthetic sensor equals rotations[i]^T times the reference attribute plus draw x configured noise on every arm; the gyroscope bias coefficient equals the reported one in both unit arms; generate() never overwrites configuration; rotations/angles/velocities derive from the stored, unmodified quaternions. Gyro integration reproducing the trajectory is numerical and not decided.",
+    note="Random draws are modelled as fresh symbols in source order; real arithmetic.",
+    ref="DESIGN.md §2 C20"),
 }
 
 NOT_YET = "check not built yet in this session (work in progress; see DESIGN.md §2 for the planned static rules)"
